@@ -59,20 +59,30 @@ KINDS = ["inet", "inet4", "inet6", "tcp", "tcp4", "tcp6", "udp", "udp4", "udp6",
 _DUMP = r"""
 import sys, json, socket
 sys.path.insert(0, sys.argv[1])
-import psutil
-from psutil import _pslinux as L, _common as C
-nc = L.NetConnections()
+out = {}
+def put(key, fn):
+    # every fact on its own: one that cannot be computed any more does not take the others with it
+    try:
+        out[key] = {"v": fn()}
+    except BaseException as e:
+        out[key] = {"err": "%s: %s" % (type(e).__name__, e)}
+try:
+    import psutil
+    from psutil import _pslinux as L, _common as C
+except BaseException as e:
+    print(json.dumps({"__import__": {"err": "%s: %s" % (type(e).__name__, e)}}))
+    raise SystemExit(0)
 def i(x):
     return None if x is None else int(x)
-out = {
-  "littleEndian": bool(L.LITTLE_ENDIAN),
-  "afInet": int(socket.AF_INET), "afInet6": int(socket.AF_INET6), "afUnix": int(socket.AF_UNIX),
-  "sockStream": int(socket.SOCK_STREAM), "sockDgram": int(socket.SOCK_DGRAM),
-  "tcpStatuses": [[str(k), str(v)] for k, v in L.TCP_STATUSES.items()],
-  "connNone": str(C.CONN_NONE),
-  "tmap": [[str(k), [[str(f), i(a), i(t)] for f, a, t in v]] for k, v in nc.tmap.items()],
-  "connTmap": [[str(k), [i(a) for a in v[0]], [i(t) for t in v[1]]] for k, v in C.conn_tmap.items()],
-}
+put("littleEndian", lambda: bool(L.LITTLE_ENDIAN))
+put("afInet", lambda: int(socket.AF_INET))
+put("afInet6", lambda: int(socket.AF_INET6))
+put("afUnix", lambda: int(socket.AF_UNIX))
+put("sockStream", lambda: int(socket.SOCK_STREAM))
+put("tcpStatuses", lambda: [[str(k), str(v)] for k, v in L.TCP_STATUSES.items()])
+put("connNone", lambda: str(C.CONN_NONE))
+put("tmap", lambda: [[str(k), [[str(f), i(a), i(t)] for f, a, t in v]] for k, v in L.NetConnections().tmap.items()])
+put("connTmap", lambda: [[str(k), [i(a) for a in v[0]], [i(t) for t in v[1]]] for k, v in C.conn_tmap.items()])
 print(json.dumps(out))
 """
 
@@ -87,64 +97,145 @@ def _runtime_dump(snap):
     return json.loads(r.stdout.strip().split("\n")[-1])
 
 
-def _unpack_indices(fn, wanted, what):
-    """`a, b, _ = <expr>[:N]` / `<expr>[0:N]` → [N, idx(wanted[0]), …]; N must equal the number of targets."""
+# ---- AST extractors. Every one of them is TOTAL: a shape it does not know is *described* in the value it returns
+# (an unparsed expression, a statement list, a "?..." marker inside a list of names) so that the obligation theorem
+# (`cfg_good`, `cfg_shapes_good`) fails on the new value; none of them depends on another one's success.
+
+
+def _flat1(n):
+    return " ".join(ast.unparse(n).split())
+
+
+def _flat(stmts):
+    return [_flat1(s) for s in stmts]
+
+
+def _shape(stmts, depth=0):
+    """statement list with its control structure, one string per simple statement / header, indented by depth"""
+    out = []
+    pre = "  " * depth
+    for s in stmts:
+        if isinstance(s, ast.If):
+            out.append(pre + "if %s:" % _flat1(s.test))
+            out += _shape(s.body, depth + 1)
+            if s.orelse:
+                out.append(pre + "else:")
+                out += _shape(s.orelse, depth + 1)
+        elif isinstance(s, (ast.For, ast.AsyncFor)):
+            out.append(pre + "for %s in %s:" % (_flat1(s.target), _flat1(s.iter)))
+            out += _shape(s.body, depth + 1)
+            if s.orelse:
+                out.append(pre + "else:")
+                out += _shape(s.orelse, depth + 1)
+        elif isinstance(s, ast.While):
+            out.append(pre + "while %s:" % _flat1(s.test))
+            out += _shape(s.body, depth + 1)
+            if s.orelse:
+                out.append(pre + "else:")
+                out += _shape(s.orelse, depth + 1)
+        elif isinstance(s, (ast.With, ast.AsyncWith)):
+            out.append(pre + "with %s:" % ", ".join(_flat1(i) for i in s.items))
+            out += _shape(s.body, depth + 1)
+        elif isinstance(s, ast.Try):
+            out.append(pre + "try:")
+            out += _shape(s.body, depth + 1)
+            for h in s.handlers:
+                out.append(pre + "except%s%s:" % ("" if h.type is None else " " + _flat1(h.type),
+                                                  "" if h.name is None else " as " + h.name))
+                out += _shape(h.body, depth + 1)
+            if s.orelse:
+                out.append(pre + "else:")
+                out += _shape(s.orelse, depth + 1)
+            if s.finalbody:
+                out.append(pre + "finally:")
+                out += _shape(s.finalbody, depth + 1)
+        elif isinstance(s, (ast.FunctionDef, ast.AsyncFunctionDef, ast.ClassDef)):
+            out += _def_shape(s, depth)
+        else:
+            out.append(pre + _flat1(s))
+    return out
+
+
+def _def_shape(fn, depth=0):
+    pre = "  " * depth
+    out = [pre + "@" + _flat1(d) for d in fn.decorator_list]
+    if isinstance(fn, ast.ClassDef):
+        out.append(pre + "class %s:" % fn.name)
+    else:
+        out.append(pre + "def %s(%s):" % (fn.name, _flat1(fn.args)))
+    body = list(fn.body)
+    if body and isinstance(body[0], ast.Expr) and isinstance(body[0].value, ast.Constant) and isinstance(body[0].value.value, str):
+        body = body[1:]                                   # the docstring is not code
+    return out + _shape(body, depth + 1)
+
+
+def _fn(tree_fn, name, cls=None):
+    """-> the FunctionDef, or a string saying why there is none (never raises)"""
+    try:
+        return extract.find_def(tree_fn(), name, cls=cls)
+    except Exception as e:  # noqa: BLE001
+        return "<%s: %s>" % (type(e).__name__, e)
+
+
+def _fn_shape(fn):
+    return [fn] if isinstance(fn, str) else _def_shape(fn)
+
+
+def _unpack_indices(fn, wanted):
+    """`a, b, _ = <expr>[lo:hi]` → [hi - lo, index of wanted[0] in <expr>, …] for the first tuple assignment from a slice
+    that names every wanted variable once; [] when there is none, [0, …] when the slice does not have as many elements
+    as there are targets (the obligation `inetN = 10` / `unixN = 7` fails either way)"""
+    if isinstance(fn, str):
+        return []
     for n in ast.walk(fn):
         if isinstance(n, ast.Assign) and len(n.targets) == 1 and isinstance(n.targets[0], ast.Tuple) \
                 and isinstance(n.value, ast.Subscript) and isinstance(n.value.slice, ast.Slice):
             names = [extract.dotted(e) for e in n.targets[0].elts]
-            if not all(w in names for w in wanted):
+            if not all(names.count(w) == 1 for w in wanted):
                 continue
             sl = n.value.slice
-            lo = 0 if sl.lower is None else extract.const(sl.lower)
-            hi = extract.const(sl.upper)
-            if lo != 0 or sl.step is not None or hi != len(names):
-                raise NotRecognised("%s: slice [%s:%s] vs %d targets" % (what, lo, hi, len(names)))
-            for w in wanted:
-                if names.count(w) != 1:
-                    raise NotRecognised("%s: %s assigned %d times" % (what, w, names.count(w)))
-            return [hi] + [names.index(w) for w in wanted]
-    raise NotRecognised("%s: tuple-unpack of the split line not found" % what)
+            idx = [names.index(w) for w in wanted]
+            try:
+                lo = 0 if sl.lower is None else int(extract.const(sl.lower))
+                hi = int(extract.const(sl.upper))
+            except Exception:  # noqa: BLE001
+                return [0] + idx
+            if lo < 0 or hi < lo or sl.step is not None or hi - lo != len(names):
+                return [0] + idx                      # the unpack cannot succeed / is not expressible: bound 0
+            return [hi - lo] + [lo + i for i in idx]
+    return []
 
 
 PATH_REST_EXPR = "line.split(None, 6)[6].rstrip('\\n').partition(' ')[2]"
 PATH_OLD_EXPR = "tokens[-1] if len(tokens) == 8 else ''"
 
 
-def _unix_path_rule(fn):
-    found = []
-    for n in ast.walk(fn):
-        if isinstance(n, ast.Assign) and len(n.targets) == 1 and extract.dotted(n.targets[0]) == "path":
-            found.append(ast.unparse(n.value))
-    if len(found) != 1:
-        raise NotRecognised("process_unix: %d assignments to `path`" % len(found))
-    if found[0] == PATH_REST_EXPR:
-        return True
-    if found[0] == PATH_OLD_EXPR:
-        return False
-    raise NotRecognised("process_unix: path = %s" % found[0])
+def _unix_path_expr(fn):
+    """the right-hand side(s) of the assignment(s) to `path` in process_unix, joined with ' ;; '"""
+    if isinstance(fn, str):
+        return fn
+    found = [_flat1(n.value) for n in ast.walk(fn)
+             if isinstance(n, ast.Assign) and len(n.targets) == 1 and extract.dotted(n.targets[0]) == "path"]
+    found += [_flat1(n) for n in ast.walk(fn) if isinstance(n, (ast.AugAssign, ast.AnnAssign)) and extract.dotted(n.target) == "path"]
+    return " ;; ".join(found) if found else "<no assignment to path>"
 
 
-def _inodes_extend(fn):
-    upd = [c for c in extract.calls_in(fn, "update") if extract.calls_in(c, "get_proc_inodes")]
-    ext = extract.calls_in(fn, "extend")
-    gpi = extract.calls_in(fn, "get_proc_inodes")
-    if len(gpi) != 1:
-        raise NotRecognised("get_all_inodes: %d calls of get_proc_inodes" % len(gpi))
-    if upd and not ext:
-        if ast.unparse(upd[0]) != "inodes.update(self.get_proc_inodes(pid))":
-            raise NotRecognised("get_all_inodes: " + ast.unparse(upd[0]))
-        return False
-    if ext and not upd:
-        if len(ext) != 1 or ast.unparse(ext[0]) not in ("inodes.setdefault(inode, []).extend(pairs)",
-                                                         "inodes[inode].extend(pairs)"):
-            raise NotRecognised("get_all_inodes: " + ast.unparse(ext[0]))
-        loops = [n for n in ast.walk(fn) if isinstance(n, ast.For) and extract.calls_in(n.iter, "get_proc_inodes")]
-        if len(loops) != 1 or ast.unparse(loops[0].target) != "(inode, pairs)" \
-                or not ast.unparse(loops[0].iter).endswith(".items()"):
-            raise NotRecognised("get_all_inodes: merge loop not recognised")
-        return True
-    raise NotRecognised("get_all_inodes: neither update nor extend")
+MERGE_EXTEND = ["for (inode, pairs) in self.get_proc_inodes(pid).items():", "  inodes.setdefault(inode, []).extend(pairs)"]
+MERGE_UPDATE = ["inodes.update(self.get_proc_inodes(pid))"]
+
+
+def _merge_stmts(fn):
+    """get_all_inodes: the statements that use get_proc_inodes(pid) — the body of the `try` that encloses the call,
+    or of the loop when there is no `try`"""
+    if isinstance(fn, str):
+        return [fn]
+    tries = [n for n in ast.walk(fn) if isinstance(n, ast.Try) and any(extract.calls_in(b, "get_proc_inodes") for b in n.body)]
+    if len(tries) == 1:
+        return _shape(tries[0].body)
+    loops = [n for n in ast.walk(fn) if isinstance(n, ast.For) and any(extract.calls_in(b, "get_proc_inodes") for b in n.body)]
+    if len(tries) == 0 and len(loops) == 1:
+        return _shape(loops[0].body)
+    return ["<%d try blocks / %d loops around get_proc_inodes>" % (len(tries), len(loops))] + _def_shape(fn)
 
 
 def _handler_classes(h):
@@ -153,99 +244,112 @@ def _handler_classes(h):
         return ["BaseException"]
     elts = t.elts if isinstance(t, ast.Tuple) else [t]
     names = [extract.dotted(e) for e in elts]
-    if any("?" in n for n in names):
-        raise NotRecognised("except clause: %s" % ast.unparse(t))
-    return [n.split(".")[-1] for n in names]
-
-
-def _flat(stmts):
-    return [" ".join(ast.unparse(s).split()) for s in stmts]
+    return [("?" + _flat1(e)) if "?" in n else n.split(".")[-1] for n, e in zip(names, elts)]
 
 
 def _readlink_try(fn):
-    """the one `try:` of get_proc_inodes whose body is the readlink call"""
+    """the one `try:` of get_proc_inodes whose body is the readlink call, or a string describing what is there"""
+    if isinstance(fn, str):
+        return fn
     tries = [n for n in ast.walk(fn) if isinstance(n, ast.Try) and any(extract.calls_in(b, "readlink") for b in n.body)]
     if len(tries) != 1 or len(extract.calls_in(fn, "readlink")) != 1:
-        raise NotRecognised("get_proc_inodes: %d try blocks around readlink" % len(tries))
+        return "?%d try blocks around %d readlink calls" % (len(tries), len(extract.calls_in(fn, "readlink")))
     t = tries[0]
     if len(t.body) != 1 or t.finalbody:
-        raise NotRecognised("get_proc_inodes: shape of the try around readlink")
+        return "?try around readlink: body %s finally %s" % (_flat(t.body), _flat(t.finalbody))
     return t
 
 
 def _link_skip_classes(fn):
-    """classes of the handlers (before any `except OSError as err`) whose body is exactly `continue`"""
+    """classes of the handlers (before any `except OSError as err`) whose body is exactly `continue`; anything else in
+    that position is listed as a '?…' entry (not a class name: `cfg_good.linkSkipNamed` fails)"""
+    t = _readlink_try(fn)
+    if isinstance(t, str):
+        return [t]
     out = []
-    for h in _readlink_try(fn).handlers:
+    for h in t.handlers:
         if h.name is not None:
             if _handler_classes(h) != ["OSError"]:
-                raise NotRecognised("get_proc_inodes: named handler for %s" % _handler_classes(h))
+                out.append("?named handler for %s: %s" % (",".join(_handler_classes(h)), "; ".join(_flat(h.body))))
             continue
         if _flat(h.body) != ["continue"]:
-            raise NotRecognised("get_proc_inodes: handler body %s" % _flat(h.body))
+            out.append("?except %s: %s" % (",".join(_handler_classes(h)), "; ".join(_flat(h.body))))
+            continue
         out += _handler_classes(h)
     return out
 
 
 def _link_skip_errnos(fn):
     """inside `except OSError as err:` — the X of every `if err.errno == errno.X: [debug(...);] continue`;
-    the handler must end in a bare `raise`; no such handler = no errno is stepped over"""
-    hs = [h for h in _readlink_try(fn).handlers if h.name is not None]
+    the handler must end in a bare `raise`; no such handler = no errno is stepped over; any other statement there
+    is listed as a '?…' entry"""
+    t = _readlink_try(fn)
+    if isinstance(t, str):
+        return [t]
+    hs = [h for h in t.handlers if h.name is not None and _handler_classes(h) == ["OSError"]]
     if not hs:
         return []
-    if len(hs) != 1 or _handler_classes(hs[0]) != ["OSError"]:
-        raise NotRecognised("get_proc_inodes: named handlers")
+    out = []
+    if len(hs) != 1:
+        out.append("?%d `except OSError as …` handlers" % len(hs))
     h = hs[0]
-    if h is not _readlink_try(fn).handlers[-1]:
-        raise NotRecognised("get_proc_inodes: `except OSError` is not the last handler")
+    if h is not t.handlers[-1]:
+        out.append("?`except OSError` is not the last handler")
     body = list(h.body)
     if not body or _flat(body[-1:]) != ["raise"]:
-        raise NotRecognised("get_proc_inodes: `except OSError` does not end in `raise`")
-    out = []
-    for st in body[:-1]:
-        if not isinstance(st, ast.If) or st.orelse:
-            raise NotRecognised("get_proc_inodes: statement in `except OSError`: %s" % _flat([st]))
-        m = re.fullmatch(r"%s\.errno == errno\.(E[A-Z0-9]+)" % re.escape(h.name), ast.unparse(st.test))
+        out.append("?`except OSError` does not end in `raise`: %s" % "; ".join(_flat(body[-1:])))
+    else:
+        body = body[:-1]
+    for st in body:
+        m = None
+        if isinstance(st, ast.If) and not st.orelse:
+            m = re.fullmatch(r"%s\.errno == errno\.(E[A-Z0-9]+)" % re.escape(h.name), _flat1(st.test))
         if not m:
-            raise NotRecognised("get_proc_inodes: test %s" % ast.unparse(st.test))
+            out.append("?" + " / ".join(_shape([st])))
+            continue
         inner = _flat(st.body)
         if inner[-1:] != ["continue"] or any(not x.startswith("debug(") for x in inner[:-1]):
-            raise NotRecognised("get_proc_inodes: body of `if %s`: %s" % (ast.unparse(st.test), inner))
+            out.append("?if %s: %s" % (_flat1(st.test), "; ".join(inner)))
+            continue
         out.append(m.group(1))
     return out
 
 
 def _all_skip_classes(fn):
-    """get_all_inodes: the `except (...): continue` around the get_proc_inodes call"""
+    """get_all_inodes: the `except (...): continue` around the get_proc_inodes call ('?…' entries for anything else)"""
+    if isinstance(fn, str):
+        return [fn]
     tries = [n for n in ast.walk(fn) if isinstance(n, ast.Try)]
-    gpi = extract.calls_in(fn, "get_proc_inodes")
-    if len(gpi) != 1:
-        raise NotRecognised("get_all_inodes: %d calls of get_proc_inodes" % len(gpi))
     inside = [t for t in tries if any(extract.calls_in(b, "get_proc_inodes") for b in t.body)]
-    if not tries and not inside:
+    if not tries:
         return []                       # no try at all: nothing is caught
     if len(tries) != 1 or len(inside) != 1 or inside[0].finalbody or inside[0].orelse:
-        raise NotRecognised("get_all_inodes: shape of the try around get_proc_inodes")
+        return ["?%d try blocks, %d around get_proc_inodes, else/finally: %s" % (
+            len(tries), len(inside), bool(inside and (inside[0].finalbody or inside[0].orelse)))]
     out = []
     for h in inside[0].handlers:
         if h.name is not None or _flat(h.body) != ["continue"]:
-            raise NotRecognised("get_all_inodes: handler %s: %s" % (_handler_classes(h), _flat(h.body)))
+            out.append("?except %s%s: %s" % (",".join(_handler_classes(h)), "" if h.name is None else " as " + h.name,
+                                             "; ".join(_flat(h.body))))
+            continue
         out += _handler_classes(h)
     return out
 
 
-def _try_shape(fn, callee, what):
-    """[body statements…, 'except <classes>', handler statements…] of the single try whose body calls `callee`
-    and nothing but assignments; [] when no try encloses the call(s)"""
+def _try_shape(fn, callee):
+    """[body statements…, 'except <classes>', handler statements…] of the try whose body calls `callee`"""
+    if isinstance(fn, str):
+        return [fn]
     tries = [n for n in ast.walk(fn) if isinstance(n, ast.Try) and any(extract.calls_in(b, callee) for b in n.body)]
     calls = extract.calls_in(fn, callee)
     if not tries:
         return ["no try around %d call(s) of %s" % (len(calls), callee)]
+    out = []
     if len(tries) != 1:
-        raise NotRecognised("%s: %d try blocks around %s" % (what, len(tries), callee))
+        out.append("%d try blocks around %s" % (len(tries), callee))
     t = tries[0]
     covered = sum(len(extract.calls_in(b, callee)) for b in t.body)
-    out = _flat(t.body) if covered == len(calls) else ["%d of %d calls of %s inside the try" % (covered, len(calls), callee)]
+    out += _flat(t.body) if covered == len(calls) else ["%d of %d calls of %s inside the try" % (covered, len(calls), callee)]
     for h in t.handlers:
         out.append("except " + ", ".join(_handler_classes(h)) + ("" if h.name is None else " as " + h.name))
         out += _flat(h.body)
@@ -257,96 +361,151 @@ def _try_shape(fn, callee, what):
 
 
 def _decode_v6_handler(fn):
-    """decode_address: the handlers of the try around the AF_INET6 inet_ntop calls (the IPv4 calls are outside)"""
+    """decode_address: the handlers of the try around the AF_INET6 inet_ntop calls (the IPv4 calls and b16decode are
+    outside it — anything else is said in a leading entry)"""
+    if isinstance(fn, str):
+        return [fn]
     tries = [n for n in ast.walk(fn) if isinstance(n, ast.Try)]
     if not tries:
         return ["no try"]
+    out = []
     if len(tries) != 1:
-        raise NotRecognised("decode_address: %d try blocks" % len(tries))
+        out.append("%d try blocks" % len(tries))
     t = tries[0]
     inside = [c for b in t.body for c in extract.calls_in(b, "inet_ntop")]
-    if not inside or any(ast.unparse(c.args[0]) != "socket.AF_INET6" for c in inside):
-        raise NotRecognised("decode_address: the try does not enclose exactly the AF_INET6 inet_ntop calls")
+    if not inside or any(not c.args or _flat1(c.args[0]) != "socket.AF_INET6" for c in inside):
+        out.append("the try does not enclose exactly the AF_INET6 inet_ntop calls")
     outside = [c for c in extract.calls_in(fn, "inet_ntop") if c not in inside]
-    if any(ast.unparse(c.args[0]) == "socket.AF_INET6" for c in outside):
-        raise NotRecognised("decode_address: an AF_INET6 inet_ntop call outside the try")
+    if any(c.args and _flat1(c.args[0]) == "socket.AF_INET6" for c in outside):
+        out.append("an AF_INET6 inet_ntop call outside the try")
     if any(extract.calls_in(b, "b16decode") for b in t.body):
-        raise NotRecognised("decode_address: b16decode moved inside the try")
-    out = []
+        out.append("b16decode inside the try")
     for h in t.handlers:
         out.append("except " + ", ".join(_handler_classes(h)) + ("" if h.name is None else " as " + h.name))
         out += _flat(h.body)
-    if t.orelse or t.finalbody:
-        raise NotRecognised("decode_address: else/finally on the try")
+    if t.orelse:
+        out += ["else"] + _flat(t.orelse)
+    if t.finalbody:
+        out += ["finally"] + _flat(t.finalbody)
+    return out
+
+
+def _ntop_calls(fn):
+    """decode_address: every `inet_ntop(family, X)` call with the chain of `if` tests it sits under -> [(tests, X)]"""
+    if isinstance(fn, str):
+        return [(fn, "")]
+    out = []
+
+    def visit(stmts, path):
+        for s in stmts:
+            if isinstance(s, ast.If):
+                t = _flat1(s.test)
+                for c in extract.calls_in(s.test, "inet_ntop"):
+                    out.append((" & ".join(path + ["<in test>"]), _flat1(c)))
+                visit(s.body, path + [t])
+                visit(s.orelse, path + ["not " + t])
+            elif isinstance(s, ast.Try):
+                visit(s.body, path)
+                for h in s.handlers:
+                    visit(h.body, path + ["except"])
+                visit(s.orelse, path)
+                visit(s.finalbody, path)
+            elif isinstance(s, (ast.For, ast.While, ast.With, ast.AsyncFor, ast.AsyncWith)):
+                visit(s.body, path + ["<loop/with>"])
+            else:
+                for c in extract.calls_in(s, "inet_ntop"):
+                    out.append((" & ".join(path), _flat1(c.args[1]) if len(c.args) == 2 and not c.keywords else "?" + _flat1(c)))
+    visit(fn.body, [])
     return out
 
 
 def facts(snap, F):
     cache = {}
 
-    def rt():
+    def rt(key):
         if "d" not in cache:
             try:
                 cache["d"] = _runtime_dump(snap)
             except Exception as e:  # noqa: BLE001
-                cache["d"] = e
-        if isinstance(cache["d"], Exception):
-            raise NotRecognised(str(cache["d"]))
-        return cache["d"]
+                cache["d"] = {"__import__": {"err": "%s: %s" % (type(e).__name__, e)}}
+        d = cache["d"]
+        ent = d.get(key) or d.get("__import__") or {"err": "not dumped"}
+        if "err" in ent:
+            raise NotRecognised("%s: %s" % (key, ent["err"]))       # a runtime value has no "shape" to describe
+        return ent["v"]
 
     L = extract.lean_list
-    F.try_add("littleEndian", "Bool", lambda: extract.lean_bool(rt()["littleEndian"]),
-              "_pslinux.LITTLE_ENDIAN of the host the check runs on (the theorems hold for both values)")
+    F.try_add("littleEndian", "Bool", lambda: extract.lean_bool(rt("littleEndian")),
+              "_pslinux.LITTLE_ENDIAN of the host the check runs on (the theorems hold for both values; the differential run "
+              "executes both branches of decode_address by patching it)")
     for nm, doc in (("afInet", "socket.AF_INET"), ("afInet6", "socket.AF_INET6"), ("afUnix", "socket.AF_UNIX"),
-                    ("sockStream", "socket.SOCK_STREAM"), ("sockDgram", "socket.SOCK_DGRAM")):
-        F.try_add(nm, "Nat", (lambda nm=nm: extract.lean_nat(rt()[nm])), doc)
+                    ("sockStream", "socket.SOCK_STREAM")):
+        F.try_add(nm, "Nat", (lambda nm=nm: extract.lean_nat(rt(nm))), doc)
     F.try_add("tcpStatuses", "List (List Nat × String)",
-              lambda: L(rt()["tcpStatuses"], lambda kv: extract.lean_pair(extract.lean_bytes(kv[0].encode()), extract.lean_str(kv[1]))),
+              lambda: L(rt("tcpStatuses"), lambda kv: extract.lean_pair(extract.lean_bytes(kv[0].encode()), extract.lean_str(kv[1]))),
               "_pslinux.TCP_STATUSES: status column (ASCII bytes) -> CONN_* value")
-    F.try_add("connNone", "String", lambda: extract.lean_str(rt()["connNone"]), "_common.CONN_NONE")
+    F.try_add("connNone", "String", lambda: extract.lean_str(rt("connNone")), "_common.CONN_NONE")
     F.try_add("tmap", "List (String × List (String × Nat × Option Nat))",
-              lambda: L(rt()["tmap"], lambda kv: extract.lean_pair(extract.lean_str(kv[0]), L(kv[1], lambda e: "(%s, %s, %s)" % (
+              lambda: L(rt("tmap"), lambda kv: extract.lean_pair(extract.lean_str(kv[0]), L(kv[1], lambda e: "(%s, %s, %s)" % (
                   extract.lean_str(e[0]), extract.lean_nat(e[1]), extract.lean_opt(e[2], extract.lean_nat))))),
               "NetConnections().tmap: kind -> [(file, family, type or None)]")
     F.try_add("connTmap", "List (String × List Nat × List Nat)",
-              lambda: L(rt()["connTmap"], lambda kv: "(%s, %s, %s)" % (extract.lean_str(kv[0]), L(kv[1], extract.lean_nat), L(kv[2], extract.lean_nat))),
+              lambda: L(rt("connTmap"), lambda kv: "(%s, %s, %s)" % (extract.lean_str(kv[0]), L(kv[1], extract.lean_nat), L(kv[2], extract.lean_nat))),
               "_common.conn_tmap: kind -> (families, types); its keys are what _check_conn_kind accepts")
-    tree = {}
+    trees = {}
 
-    def lin():
-        if "t" not in tree:
-            tree["t"] = extract.parse_module(snap, "_pslinux.py")
-        return tree["t"]
+    def mod(rel):
+        def get():
+            if rel not in trees:
+                trees[rel] = extract.parse_module(snap, rel)
+            return trees[rel]
+        return get
 
-    F.try_add("inodesExtend", "Bool",
-              lambda: extract.lean_bool(_inodes_extend(extract.find_def(lin(), "get_all_inodes", cls="NetConnections"))),
-              "get_all_inodes merges the (pid, fd) lists of all processes per inode (true) or overwrites them with dict.update (false)")
-    F.try_add("unixPathRest", "Bool",
-              lambda: extract.lean_bool(_unix_path_rule(extract.find_def(lin(), "process_unix", cls="NetConnections"))),
-              "process_unix takes everything after '<inode> ' as the path (true) or `tokens[-1] if len(tokens) == 8 else ''` (false)")
-    F.try_add("inetIdx", "List Nat",
-              lambda: L(_unpack_indices(extract.find_def(lin(), "process_inet", cls="NetConnections"),
-                                        ["laddr", "raddr", "status", "inode"], "process_inet"), extract.lean_nat),
-              "process_inet: [number of tokens unpacked, index of laddr, raddr, status, inode]")
-    F.try_add("unixIdx", "List Nat",
-              lambda: L(_unpack_indices(extract.find_def(lin(), "process_unix", cls="NetConnections"),
-                                        ["type_", "inode"], "process_unix"), extract.lean_nat),
-              "process_unix: [number of tokens unpacked, index of type_, inode]")
+    lin, top = mod("_pslinux.py"), mod("__init__.py")
+    NC = lambda name: _fn(lin, name, cls="NetConnections")      # noqa: E731
     LS = lambda xs: L(xs, extract.lean_str)      # noqa: E731
-    gpi = lambda: extract.find_def(lin(), "get_proc_inodes", cls="NetConnections")      # noqa: E731
-    F.try_add("linkSkipClasses", "List String", lambda: LS(_link_skip_classes(gpi())),
-              "get_proc_inodes: exception classes of the `except ...: continue` clauses around readlink")
-    F.try_add("linkSkipErrnos", "List String", lambda: LS(_link_skip_errnos(gpi())),
-              "get_proc_inodes, `except OSError as err`: the errno.X whose `if err.errno == errno.X:` ends in `continue`; the handler ends in `raise`")
-    F.try_add("allSkipClasses", "List String",
-              lambda: LS(_all_skip_classes(extract.find_def(lin(), "get_all_inodes", cls="NetConnections"))),
-              "get_all_inodes: exception classes of the `except (...): continue` around get_proc_inodes(pid)")
-    F.try_add("decodeV6Handler", "List String",
-              lambda: LS(_decode_v6_handler(extract.find_def(lin(), "decode_address", cls="NetConnections"))),
+    F.try_add("mergeStmts", "List String", lambda: LS(_merge_stmts(NC("get_all_inodes"))),
+              "get_all_inodes: what is done with get_proc_inodes(pid) — `for inode, pairs in ….items(): inodes.setdefault(inode, []).extend(pairs)` "
+              "(all holders kept) or `inodes.update(…)` (pre-fix: the last process wins)")
+    F.try_add("unixPathExpr", "String", lambda: extract.lean_str(_unix_path_expr(NC("process_unix"))),
+              "process_unix: the expression assigned to `path` (everything after '<inode> ', or pre-fix `tokens[-1] if len(tokens) == 8 else ''`)")
+    F.try_add("inetIdx", "List Nat",
+              lambda: L(_unpack_indices(NC("process_inet"), ["laddr", "raddr", "status", "inode"]), extract.lean_nat),
+              "process_inet: [number of tokens unpacked, index of laddr, raddr, status, inode] ([] = no such tuple assignment)")
+    F.try_add("unixIdx", "List Nat",
+              lambda: L(_unpack_indices(NC("process_unix"), ["type_", "inode"]), extract.lean_nat),
+              "process_unix: [number of tokens unpacked, index of type_, inode] ([] = no such tuple assignment)")
+    F.try_add("linkSkipClasses", "List String", lambda: LS(_link_skip_classes(NC("get_proc_inodes"))),
+              "get_proc_inodes: exception classes of the `except ...: continue` clauses around readlink ('?…' = a clause of another shape)")
+    F.try_add("linkSkipErrnos", "List String", lambda: LS(_link_skip_errnos(NC("get_proc_inodes"))),
+              "get_proc_inodes, `except OSError as err`: the errno.X whose `if err.errno == errno.X:` ends in `continue`; the handler ends in `raise` ('?…' = anything else in there)")
+    F.try_add("allSkipClasses", "List String", lambda: LS(_all_skip_classes(NC("get_all_inodes"))),
+              "get_all_inodes: exception classes of the `except (...): continue` around get_proc_inodes(pid) ('?…' = a clause of another shape)")
+    F.try_add("decodeV6Handler", "List String", lambda: LS(_decode_v6_handler(NC("decode_address"))),
               "decode_address: handlers of the try around the AF_INET6 inet_ntop calls (b16decode and the IPv4 calls are outside it)")
-    F.try_add("inetV6Try", "List String",
-              lambda: LS(_try_shape(extract.find_def(lin(), "process_inet", cls="NetConnections"), "decode_address", "process_inet")),
+    F.try_add("inetV6Try", "List String", lambda: LS(_try_shape(NC("process_inet"), "decode_address")),
               "process_inet: the try around the two decode_address calls, statement by statement")
+    F.try_add("ntopCalls", "List (String × String)",
+              lambda: L(_ntop_calls(NC("decode_address")), lambda kv: extract.lean_pair(extract.lean_str(kv[0]), extract.lean_str(kv[1]))),
+              "decode_address: each inet_ntop call — the `if` tests it sits under (family, LITTLE_ENDIAN) and its second argument; "
+              "both endianness branches are facts (the model's v4RevLE/v4RevBE/v6SwapLE/v6SwapBE are read off them)")
+    # whole-function statement lists (docstrings and comments are not code): the hand transcription in Model/C11.lean was
+    # made from exactly these statements; any edit of one of these functions breaks `cfg_shapes_good`
+    for fact, get, doc in (
+            ("shapeDecodeAddress", lambda: NC("decode_address"), "NetConnections.decode_address"),
+            ("shapeGetProcInodes", lambda: NC("get_proc_inodes"), "NetConnections.get_proc_inodes (socket:[ prefix, inode[8:][:-1], (pid, int(fd)))"),
+            ("shapeGetAllInodes", lambda: NC("get_all_inodes"), "NetConnections.get_all_inodes"),
+            ("shapeProcessInet", lambda: NC("process_inet"), "NetConnections.process_inet (inodes[inode][0], filter_pid, TCP_STATUSES[status])"),
+            ("shapeProcessUnix", lambda: NC("process_unix"), "NetConnections.process_unix (pairs, filter_pid, int(type_))"),
+            ("shapeRetrieve", lambda: NC("retrieve"), "NetConnections.retrieve (early return, set(), `if pid:` pconn/sconn)"),
+            ("shapeLinuxSys", lambda: _fn(lin, "net_connections"), "_pslinux.net_connections"),
+            ("shapeLinuxProc", lambda: _fn(lin, "net_connections", cls="Process"), "_pslinux.Process.net_connections (with its decorators)"),
+            ("shapeReadlink", lambda: _fn(lin, "readlink"), "_pslinux.readlink, the wrapper around os.readlink (NUL / ' (deleted)' stripping: identity on socket:[N] targets)"),
+            ("shapeCheckKind", lambda: _fn(top, "_check_conn_kind"), "psutil._check_conn_kind"),
+            ("shapeFrontSys", lambda: _fn(top, "net_connections"), "psutil.net_connections: _check_conn_kind(kind) before the platform call"),
+            ("shapeFrontProc", lambda: _fn(top, "net_connections", cls="Process"), "psutil.Process.net_connections: _check_conn_kind(kind) before the platform call"),
+            ("shapeFrontAlias", lambda: _fn(top, "connections", cls="Process"), "psutil.Process.connections (deprecated alias)")):
+        F.try_add(fact, "List String", (lambda get=get: LS(_fn_shape(get()))), "statement list of " + doc)
 
 
 # ------------------------------------------------------------------------------ independent renderer (printf style)
@@ -359,15 +518,16 @@ UNIX_HDR = "Num       RefCount Protocol Flags    Type St Inode Path"
 PTR = "0000000000000000"
 
 
-def _ep(ip, port):
-    # each 32-bit word of the address is printed with %08X as a host-order integer
-    words = struct.unpack("=%dI" % (len(ip) // 4), ip)
+def _ep(ip, port, be=False):
+    # each 32-bit word of the address is printed with %08X as a host-order integer (`be`: the host is big-endian)
+    words = struct.unpack("%s%dI" % (">" if be else "=", len(ip) // 4), ip)
     return "".join("%08X" % w for w in words) + ":%04X" % port
 
 
 def py_render(world):
     """net/* contents as the kernel prints them (format strings copied from the kernel source)."""
     out = {}
+    be = bool(world.get("be"))
     cls = {"tcp": ("inet4", 1), "udp": ("inet4", 2), "tcp6": ("inet6", 1), "udp6": ("inet6", 2)}
     for name, (fam, typ) in cls.items():
         if fam == "inet6" and not world["v6"]:
@@ -381,7 +541,7 @@ def py_render(world):
             if s["fam"] != fam or s["typ"] != typ:
                 continue
             head = "%s %s %02X %08X:%08X %02X:%08lX %08X %5u %8d %lu" % (
-                _ep(bytes.fromhex(s["lip"]), s["lport"]), _ep(bytes.fromhex(s["rip"]), s["rport"]),
+                _ep(bytes.fromhex(s["lip"]), s["lport"], be), _ep(bytes.fromhex(s["rip"]), s["rport"], be),
                 s["state"], s["txq"], s["rxq"], 0, 0, 0, s["uid"], 0, s["inode"])
             if typ == 1:
                 line = "%4d: %s %d %s %lu %lu %u %u %d" % (sl, head, 1, PTR, 100, 0, 0, 10, 0)
@@ -499,10 +659,12 @@ class Impl:
     def injected(self, env):
         """Fault injection from outside the repository: os.readlink / os.listdir fail with the scripted errno on
         the scripted paths (every other path reaches the real call); `env["ntop6"]` makes socket.inet_ntop behave
-        like a Python built without IPv6 (ValueError for AF_INET6), `env["supv6"]` decides supports_ipv6()."""
+        like a Python built without IPv6 (ValueError for AF_INET6), `env["supv6"]` decides supports_ipv6();
+        `env["be"]` makes the code believe it runs on a big-endian host (`_pslinux.LITTLE_ENDIAN = False`: the `else:`
+        branches of decode_address run, over files rendered the way a big-endian kernel prints them)."""
         real_readlink, real_listdir = os.readlink, os.listdir
         link_faults, list_faults = self.link_faults, self.list_faults
-        hits = self.fault_hits = {"readlink": 0, "listdir": 0, "ntop6": 0}
+        hits = self.fault_hits = {"readlink": 0, "listdir": 0, "ntop6": 0, "be": 0}
 
         def readlink(path, *a, **kw):
             e = link_faults.get(path)
@@ -520,8 +682,12 @@ class Impl:
         os.readlink, os.listdir = readlink, listdir
         lin = self.ps._pslinux
         saved = (socket.inet_ntop, socket.has_ipv6, lin.supports_ipv6)
+        saved_le = lin.LITTLE_ENDIAN
         sup = self.ps._common.supports_ipv6
         try:
+            if env.get("be"):
+                lin.LITTLE_ENDIAN = False
+                hits["be"] = 1
             if env.get("ntop6"):
                 real_ntop = socket.inet_ntop
 
@@ -540,6 +706,7 @@ class Impl:
         finally:
             os.readlink, os.listdir = real_readlink, real_listdir
             socket.inet_ntop, socket.has_ipv6, lin.supports_ipv6 = saved
+            lin.LITTLE_ENDIAN = saved_le
             if env.get("ntop6"):
                 sup.cache_clear()
 
@@ -554,14 +721,23 @@ class Impl:
             ip, port = a
             packed = socket.inet_pton(fam, ip)
             d = {"ip": packed.hex(), "port": int(port)}
+            # the documented access paths `conn.laddr.ip` / `conn.laddr.port` must give the same two values
+            by_name = (getattr(a, "ip", "<no .ip>"), getattr(a, "port", "<no .port>"))
+            if by_name != (ip, port) or type(a).__name__ != "addr":
+                d["attrs"] = "%s(ip=%r, port=%r) vs positional %r" % (type(a).__name__, by_name[0], by_name[1], (ip, port))
             # "decoded to the textual IP": the text must be the one libc's inet_ntop gives for these bytes (what
             # getsockname()/ss/netstat show, e.g. '::ffff:127.0.0.1' for a mapped address) — any other spelling of
             # the same bytes makes the row differ from every promised row
             if ip != _REAL_NTOP(fam, packed):
                 d["text"] = str(ip)
             return d
-        return {"fd": int(r.fd), "family": fam, "type": typ, "laddr": addr(r.laddr), "raddr": addr(r.raddr),
-                "status": str(r.status), "pid": getattr(r, "pid", None)}
+        out = {"fd": int(r.fd), "family": fam, "type": typ, "laddr": addr(r.laddr), "raddr": addr(r.raddr),
+               "status": str(r.status), "pid": getattr(r, "pid", None)}
+        # the documented positional order: (fd, family, type, laddr, raddr, status[, pid])
+        named = (r.fd, r.family, r.type, r.laddr, r.raddr, r.status) + ((r.pid,) if hasattr(r, "pid") else ())
+        if tuple(r) != named:
+            out["order"] = "tuple(row) = %r, documented order gives %r" % (tuple(r), named)
+        return out
 
     def _call(self, q, mode):
         """The raw front-end call in one of the call modes (no mode may change the answer)."""
@@ -576,6 +752,10 @@ class Impl:
                 if sorted(map(repr, first)) != sorted(map(repr, second)):
                     raise AssertionError("second call differs from the first")
                 return second
+            if mode == "default_kind":
+                if kind != "inet":
+                    raise AssertionError("default_kind mode needs kind 'inet'")
+                return ps.net_connections()              # the documented default: kind='inet'
             if mode == "oneshot_open":
                 # oneshot() blocks open (and warm) on Process objects of the listed processes
                 with contextlib.ExitStack() as st:
@@ -623,6 +803,14 @@ class Impl:
             with warnings.catch_warnings():
                 warnings.simplefilter("ignore")
                 return p.connections(kind)
+        if mode in ("default_kind", "deprecated_alias_default"):
+            if kind != "inet":
+                raise AssertionError("%s mode needs kind 'inet'" % mode)
+            if mode == "default_kind":
+                return p.net_connections()               # the documented default: kind='inet'
+            with warnings.catch_warnings():
+                warnings.simplefilter("ignore")
+                return p.connections()
         if mode == "as_dict":
             # as_dict() can only ask for the default kind
             if kind != "inet":
@@ -672,14 +860,15 @@ class Impl:
         return [(m, self.query(q, env, m)) for m in q.get("modes") or ["plain"]]
 
 
-SYS_MODES = ["plain", "second", "oneshot_open"]
-PROC_MODES = ["plain", "oneshot", "oneshot_warm", "second", "process_iter", "deprecated_alias", "as_dict"]
+SYS_MODES = ["plain", "second", "oneshot_open", "default_kind"]
+PROC_MODES = ["plain", "oneshot", "oneshot_warm", "second", "process_iter", "deprecated_alias", "as_dict", "default_kind",
+              "deprecated_alias_default"]
+INET_ONLY_MODES = ("as_dict", "default_kind", "deprecated_alias_default")     # calls that cannot name a kind
 
 
 def modes_for(q):
-    if q.get("pid") is None:
-        return list(SYS_MODES)
-    return [m for m in PROC_MODES if m != "as_dict" or q["kind"] == "inet"]
+    ms = SYS_MODES if q.get("pid") is None else PROC_MODES
+    return [m for m in ms if m not in INET_ONLY_MODES or q["kind"] == "inet"]
 
 
 def _rowkey(r):
@@ -754,8 +943,11 @@ PATHS = [None, None, b"/run/x.sock", b"/tmp/my sock", b"@abstract", b"@", b"@/tm
          b"x", b"/tmp/.X11-unix/X0", b"@a b", b"/v\x0bt", b"/f\x0cf", b"/u\x1cs", b"/nbsp\xc2\xa0x", b"/nel\xc2\x85x", b"12345", b"0001 01 7",
          # carriage returns: open_text() reads with newline="\n", so "\r" is an ordinary character of the name
          b"/tmp/cr\rx", b"\rlead", b"trail\r", b"\r", b"/a\r b", b"@\r\r", b" \r "]
-OTHERS = [b"/dev/null", b"pipe:[4242]", b"anon_inode:[eventpoll]", b"/tmp/with space", b"socket:[", b"socket", b"/socket:[12]",
-          b"anon_inode:[eventfd]", b"/dev/pts/0"]
+OTHERS = [b"/dev/null", b"pipe:[4242]", b"anon_inode:[eventpoll]", b"/tmp/with space", b"socket", b"/socket:[12]",
+          b"anon_inode:[eventfd]", b"/dev/pts/0", b"socket:", b"Socket:[12]", b"socket:(12)"]
+# link texts no kernel produces but which start with "socket:[": outside `World.WF` (`Target.WF`), so the driver answers
+# `unspecified` for the whole world (implementation vs model only) — generated rarely
+OTHERS_NOT_WF = [b"socket:[", b"socket:[]", b"socket:[x]"]
 
 
 def rand_ip(rng, fam):
@@ -807,7 +999,7 @@ def gen_world(rng, family):
         classes = [c for c in classes if c[0] == "inet6"] * 3 + classes
     if family == "unix_paths":
         classes = [c for c in classes if c[0] == "unix"]
-    elif family == "addresses":
+    elif family in ("addresses", "addresses_be"):
         classes = [c for c in classes if c[0] != "unix"]
     inodes = rng.sample(range(1, 99999), nsock + 3) if rng.random() < 0.8 else rng.sample(range(1, 2**32), nsock + 3)
     socks = [gen_sock(rng, rng.choice(classes), inodes[i]) for i in range(nsock)]
@@ -847,7 +1039,7 @@ def gen_world(rng, family):
             for _ in range(rng.choice([0, 1, 2, 3])):
                 r = rng.random()
                 if r < 0.6:
-                    t = {"o": rng.choice(OTHERS).hex()}
+                    t = {"o": (rng.choice(OTHERS_NOT_WF) if rng.random() < 0.03 else rng.choice(OTHERS)).hex()}
                 elif r < 0.8:
                     t = {"s": inodes[-1 - rng.randrange(3)]}      # a socket shown in no net/* file (netlink, packet…)
                 else:
@@ -875,6 +1067,10 @@ def gen_world(rng, family):
             rng.shuffle(items)
             procs.append([p, [[fd, t] for fd, t in items]])
     w = {"socks": socks, "procs": procs, "v6": v6}
+    if family == "addresses_be" or (family in ("mixed", "big", "nov6") and rng.random() < 0.1):
+        # a big-endian host (s390x, ppc64): the kernel prints the address words in network order and the code takes
+        # the `else:` branches of `if LITTLE_ENDIAN:`
+        w["be"] = True
     if family == "nov6":
         # a Python that cannot format IPv6 addresses; mostly supports_ipv6() is false as well
         w["ntop6"] = True
@@ -890,7 +1086,7 @@ LIST_FATAL = [5, 24, 12, "EINVAL"]        # EIO, EMFILE, ENOMEM; EINVAL is not c
 
 
 def world_env(world):
-    return {"ntop6": bool(world.get("ntop6")), "supv6": bool(world.get("supv6", True))}
+    return {"ntop6": bool(world.get("ntop6")), "supv6": bool(world.get("supv6", True)), "be": bool(world.get("be"))}
 
 
 def gen_queries(rng, world, n=3, family=None):
@@ -1071,8 +1267,11 @@ def mutate_files(rng, files):
 def world_line(world, listed, queries):
     """Driver input: the world with descriptor tables in the order the implementation lists them."""
     env = world_env(world)
-    return {"op": "world", "socks": world["socks"], "procs": listed, "v6": world["v6"], "ntop6": env["ntop6"],
+    line = {"op": "world", "socks": world["socks"], "procs": listed, "v6": world["v6"], "ntop6": env["ntop6"],
             "supv6": env["supv6"], "queries": [{"kind": q["kind"], "pid": q.get("pid")} for q in queries]}
+    if env["be"]:
+        line["le"] = False                 # kernel renderer and model of a big-endian host
+    return line
 
 
 def features(world, listed):
@@ -1095,6 +1294,8 @@ def features(world, listed):
             f.add("proc:denied-by-readlink")
     if world.get("ntop6"):
         f.add("env:ntop6-fails/supports_ipv6=%s" % bool(world.get("supv6", True)))
+    if world.get("be"):
+        f.add("env:big-endian host (LITTLE_ENDIAN=False)")
     for s in world["socks"]:
         f.add("class:%s/%d" % (s["fam"], s["typ"]))
         h = holders.get(s["inode"], [])
@@ -1193,6 +1394,9 @@ def run_worlds(ctx, impl, items, res, tag_prefix=""):
                 if not ok:
                     res.disagree("spec", inp, im, mo, sp, note="%s [call mode: %s]" % (why, mode))
                     continue
+                if nexp > 0 and im.get("kind") == "rows" and \
+                        len(im["rows"]) < sum(len(e["owners"]) if e["all"] else 1 for e in sp["expects"]):
+                    res.count("rows:fewer rows than requested sockets — indistinguishable sockets collapse (C11_rows_count_twins)")
                 if not r["accepts"]:
                     res.disagree("model", inp, im, mo, sp, note="the Lean model's rows are not accepted by the specification (C11_rows_exact would be contradicted)")
                     continue
@@ -1268,24 +1472,25 @@ def run_raw(ctx, impl, items, res):
               "procs": [[pid, None if fds is None else {"err": fds[1]} if isinstance(fds, tuple) else
                          [[fd, _raw_link(t)] for fd, t in fds]] for pid, fds in listed],
               "ntop6": bool(env.get("ntop6")), "supv6": bool(env.get("supv6", True)),
+              **({"le": False} if env.get("be") else {}),
               "queries": qs} for _, files, listed, qs, _, env in staged]
     answers = ctx.driver().batch(lines) if lines else []
     res.extra["driver_lines"] = res.extra.get("driver_lines", 0) + len(lines)
     for (how, files, listed, queries, outs, env), ans, line in zip(staged, answers, lines):
         if "bad" in ans:
             raise InfraError("driver rejected raw files: %s" % ans["bad"])
-        res.count("malformed:" + how + ("/no-ipv6-text" if env.get("ntop6") else ""))
+        res.count("malformed:" + how + ("/no-ipv6-text" if env.get("ntop6") else "") + ("/big-endian" if env.get("be") else ""))
         for q, im, r in zip(queries, outs, ans["results"]):
             mo = canon_model(r["model"])
             res.count("malformed-outcome:" + (im.get("exc") or "rows"))
-            res.case(("raw", line["files"], line["procs"], line["ntop6"], line["supv6"], q), nontrivial=im.get("kind") == "exc")
+            res.case(("raw", line["files"], line["procs"], line["ntop6"], line["supv6"], line.get("le"), q), nontrivial=im.get("kind") == "exc")
             if not compare(im, mo):
                 res.disagree("model", {"raw": {"files": line["files"], "procs": line["procs"], "env": env}, "query": q, "source": "malformed:" + how},
                              im, mo, None, note="malformed input (%s): implementation differs from the Lean model" % how)
 
 
 FAMILIES = ["mixed", "unix_paths", "addresses", "shared", "twins", "ownerless", "faults", "big",
-            "mixed", "nov6", "listerr", "fatal", "consist"]
+            "mixed", "nov6", "listerr", "fatal", "consist", "addresses_be"]
 
 CORPUS = [
     # L11: UNIX socket bound to a path containing a blank
@@ -1314,6 +1519,11 @@ CORPUS = [
     {"socks": [{"fam": "inet4", "typ": 1, "lip": "7f000001", "lport": 80, "rip": "00000000", "rport": 0, "state": 10,
                 "path": None, "inode": 7, "txq": 0, "rxq": 0, "uid": 0, "refcnt": 2, "flags": 0}],
      "procs": [[10, [[3, {"s": 7}]]], [20, [[5, {"s": 7}]]]], "v6": True},
+    # worldTwins (C11_rows_count_twins, C11_rows_count_Full_false): two unbound UNIX stream sockets nobody visible holds
+    # give ONE row (rows are value tuples collected in a set); next to them a process so that per-process queries exist
+    {"socks": [{"fam": "unix", "typ": 1, "lip": "", "lport": 0, "rip": "", "rport": 0, "state": 1,
+                "path": None, "inode": 501 + i, "txq": 0, "rxq": 0, "uid": 0, "refcnt": 2, "flags": 0} for i in range(2)],
+     "procs": [[10, []]], "v6": True},
 ]
 
 
@@ -1364,6 +1574,9 @@ def correspond(ctx, res):
             nw = dict(exhaustive_world(), ntop6=True, supv6=sup)
             nq = [{"kind": k, "pid": p, "modes": ["plain"]} for k in KINDS for p in (None, 10, 20, 30)]
             items.append(("exhaustive_nov6", nw, nq))
+        # the 11 kinds x 4 callers on a big-endian host (the `else:` branches of decode_address)
+        bw = dict(exhaustive_world(), be=True)
+        items.append(("exhaustive_be", bw, [{"kind": k, "pid": p, "modes": ["plain"]} for k in KINDS for p in (None, 10, 20, 30)]))
         CH = 400
         for a in range(0, len(items), CH):
             run_worlds(ctx, impl, items[a:a + CH], res)
@@ -1391,6 +1604,9 @@ def correspond(ctx, res):
             w = gen_world(rng, "mixed")
             if not w["socks"]:
                 continue
+            w.pop("be", None)
+            if i % 8 == 0:
+                w["be"] = True                    # malformed files read on a big-endian host
             files = py_render(w)
             files2, how = mutate_files(rng, files)
             procs_b = [[pid, render_listing(fds)] for pid, fds in w["procs"]]
@@ -1399,9 +1615,20 @@ def correspond(ctx, res):
             if listable and rng.random() < 0.4 and how != "missing_v4":
                 qs.append({"kind": rng.choice(KINDS), "pid": rng.choice(listable)})
             env = {"ntop6": True, "supv6": rng.random() < 0.3} if rng.random() < 0.15 else {}
+            if w.get("be"):
+                env["be"] = True
             raw_items.append((how, files2, procs_b, qs, env))
         for a in range(0, len(raw_items), 400):
             run_raw(ctx, impl, raw_items[a:a + 400], res)
+        try:
+            n_live, bad_live = live_socket_check(ctx.psutil)
+            res.extra["live_sockets_checked"] = n_live
+            res.count("live:own socket — kernel line vs renderer, real code vs getsockname()", n_live)
+            for b in bad_live:
+                res.disagree("model", {"live_socket": b}, b.get("got"), None, b.get("want"),
+                             note="live socket check: " + b["what"])
+        except Exception as e:  # supporting validation only  # noqa: BLE001
+            res.notes.append("live socket check skipped: %s: %s" % (type(e).__name__, e))
         try:
             checked, bad = live_format_check()
             res.extra["live_kernel_lines_rerendered"] = checked
@@ -1487,6 +1714,72 @@ def live_format_check():
         if ln.split(b": ", 1)[1] != mine.split(b": ", 1)[1]:
             bad.append(("unix", ln[:100], mine[:100]))
     return checked, bad
+
+
+def live_socket_check(ps):
+    """Independent check of the byte-order convention (audit item 4): the harness binds real sockets, then
+    (1) the running kernel's own /proc/net line for that inode must carry, in its local_address column, exactly what
+        the printf renderer `_ep` gives for getsockname() (so the renderer's reading of "%08X per host-order word" is
+        the kernel's), and
+    (2) the real code over the real /proc must report that descriptor with laddr == getsockname().
+    -> (number of comparisons, [mismatch…]); sockets the sandbox refuses are skipped."""
+    n, bad = 0, []
+    socks = []
+    try:
+        for fam, typ, addr, name in ((socket.AF_INET, socket.SOCK_STREAM, "127.0.0.1", "tcp"),
+                                     (socket.AF_INET, socket.SOCK_DGRAM, "127.0.0.1", "udp"),
+                                     (socket.AF_INET, socket.SOCK_STREAM, "127.1.2.3", "tcp"),
+                                     (socket.AF_INET6, socket.SOCK_STREAM, "::1", "tcp6"),
+                                     (socket.AF_INET6, socket.SOCK_DGRAM, "::1", "udp6"),
+                                     (socket.AF_INET6, socket.SOCK_STREAM, "::ffff:127.0.0.1", "tcp6")):
+            try:
+                sk = socket.socket(fam, typ)
+                sk.bind((addr, 0))
+                if typ == socket.SOCK_STREAM:
+                    sk.listen(1)
+            except OSError:
+                continue
+            socks.append((sk, fam, typ, name))
+        be = sys.byteorder == "big"
+        for sk, fam, typ, name in socks:
+            ip, port = sk.getsockname()[:2]
+            ino = os.fstat(sk.fileno()).st_ino
+            want = _ep(socket.inet_pton(fam, ip), port, be).encode()
+            try:
+                with open("/proc/net/" + name, "rb") as f:
+                    lines = [ln.split() for ln in f.read().split(b"\n")[1:] if ln]
+            except OSError:
+                continue
+            mine = [t for t in lines if len(t) > 9 and t[9] == str(ino).encode()]
+            if len(mine) != 1:
+                continue
+            n += 1
+            if mine[0][1] != want:
+                bad.append({"what": "the kernel prints %s:%d as %r, the renderer as %r" % (ip, port, mine[0][1], want),
+                            "got": mine[0][1].decode(), "want": want.decode()})
+        if socks:
+            old = ps.PROCFS_PATH
+            reset_psutil_state(ps)
+            ps.PROCFS_PATH = "/proc"
+            try:
+                rows = ps.Process(os.getpid()).net_connections("inet")
+            finally:
+                ps.PROCFS_PATH = old
+                reset_psutil_state(ps)
+            byfd = {r.fd: r for r in rows}
+            for sk, fam, typ, name in socks:
+                ip, port = sk.getsockname()[:2]
+                r = byfd.get(sk.fileno())
+                n += 1
+                got = None if r is None else [int(r.family), int(r.type), list(r.laddr)]
+                if got != [int(fam), int(typ), [ip, port]]:
+                    bad.append({"what": "Process().net_connections('inet') over the real /proc shows fd %d as %r, getsockname() "
+                                        "says %r" % (sk.fileno(), got, [int(fam), int(typ), [ip, port]]),
+                                "got": got, "want": [int(fam), int(typ), [ip, port]]})
+    finally:
+        for sk, _, _, _ in socks:
+            sk.close()
+    return n, bad
 
 
 # ------------------------------------------------------------------------------ replay / shrink
